@@ -47,10 +47,16 @@ APIS = {
     "scan_env_padded": lambda t: _with_env(" true\r\n", lambda: sorted(reader.rowkey(r) for r in t.scan())),
     "scan_env_yes_upper": lambda t: _with_env("YES", lambda: sorted(reader.rowkey(r) for r in t.iter_records())),
     "row_count": lambda t: t.row_count(),
+    # snapshot-inspection getters: they answer from the metadata file alone
+    "current_snapshot": lambda t: getattr(t.current_snapshot(), "snapshot_id", None),
+    "snapshots": lambda t: sorted(s_["snapshot_id"] if isinstance(s_, dict) else s_.snapshot_id for s_ in t.snapshots()),
+    "time_travel_latest": lambda t: getattr(t.time_travel(), "snapshot_id", None),
 }
 # which file kinds a read API touches
 TOUCHES = {a: {"meta", "mlist", "manifest", "data"} for a in APIS}
 TOUCHES["row_count"] = {"meta", "mlist", "manifest"}
+for _a in ("current_snapshot", "snapshots", "time_travel_latest"):
+    TOUCHES[_a] = {"meta"}
 CHECKSUM_ON = {"scan", "scan_parallel", "scan_filter_cols", "scan_batches", "iter_records", "scan_cols", "scan_cols_parallel", "scan_env_on",
                "scan_env_padded", "scan_env_yes_upper"}
 
@@ -230,9 +236,11 @@ def run(ctx, model_ok):
                                 continue
                             else:
                                 sig = f"C14:partial-or-altered-rows:{kind}:{dname}"
-                            n_got = got if isinstance(got, int) else len(got)
-                            n_clean = clean[api] if isinstance(clean[api], int) else len(clean[api])
-                            rep.violate(sig, f"{api}: {kind} file {os.path.basename(rel)[:30]} {dname}: returned {n_got} rows instead of raising (undamaged: {n_clean})", case)
+                            n_got = got if isinstance(got, int) or got is None else len(got)
+                            n_clean = clean[api] if isinstance(clean[api], int) or clean[api] is None else len(clean[api])
+                            if api in ("current_snapshot", "snapshots", "time_travel_latest"):
+                                sig = f"C14:broken-table-reported-as-empty-or-other:{kind}:{dname}" if sig.startswith("C14:partial") else sig
+                            rep.violate(sig, f"{api}: {kind} file {os.path.basename(rel)[:30]} {dname}: returned {n_got!r} (rows) instead of raising (undamaged: {n_clean!r})", case)
                     if model_ok:
                         status = "ok" if ((same_content and dname != "transient") and (kind != "data" or bytes_same)) else ("missing" if dname == "deleted" else ("transient" if dname == "transient" else
                                  ("unparseable" if unparseable else "altered")))
